@@ -214,6 +214,15 @@ def canon(v):
     return ("o", t.__name__, repr(v)[:80])
 
 
+def clone(v):
+    """Structural copy (lists/dicts rebuilt, leaves shared): what a fresh deserialization would deliver."""
+    if type(v) is list:
+        return [clone(x) for x in v]
+    if type(v) is dict:
+        return {k: clone(x) for k, x in v.items()}
+    return v
+
+
 def vclass(v):
     """Input class of a hostile value (used in violation keys)."""
     if v is ABSENT:
@@ -338,21 +347,21 @@ def judge_forward_for(v):
     verdict = "ok"
     for ff in v:
         if type(ff) is not dict:
-            return "reject", "list-of-" + vclass(ff)
+            return "reject", "malformed-forward_for"
         for key in ("session", "authid", "authrole"):
             if key not in ff:
-                return "reject", "ff-missing-" + key
+                return "reject", "malformed-forward_for"
         s = ff["session"]
         if type(s) is bool:
             verdict = "grey"
         elif not _is_int(s):
-            return "reject", "ff-session-" + vclass(s)
+            return "reject", "malformed-forward_for"
         if ff["authid"] is None:
             verdict = "grey"
         elif type(ff["authid"]) is not str:
-            return "reject", "ff-authid-" + vclass(ff["authid"])
+            return "reject", "malformed-forward_for"
         if type(ff["authrole"]) is not str:
-            return "reject", "ff-authrole-" + vclass(ff["authrole"])
+            return "reject", "malformed-forward_for"
     return verdict, "forward_for"
 
 
@@ -647,10 +656,10 @@ def norm_wire(spec, wire):
     if type(wire) not in (list, tuple) or not wire or wire[0] != spec.code or type(wire[0]) is not int:
         return None
     w = list(wire)
+    pm = is_payload_mode(spec, w)
     if spec.payload:
         while len(w) > spec.fixed_len and not _truthy(w[-1]):
             w.pop()
-    pm = spec.payload and len(w) == spec.fixed_len + 1 and type(w[-1]) in (bytes, str)
     out = [("i", spec.code)]
     for i, p in enumerate(spec.layout):
         idx = i + 1
@@ -715,7 +724,7 @@ def offenders(spec, wire):
                     if v != "ok":
                         out.append(("%s.%s" % (p.name, o.key), v, c))
     if spec.payload:
-        if len(wire) > spec.fixed_len and type(wire[spec.fixed_len]) is not list:
+        if len(wire) > spec.fixed_len and type(wire[spec.fixed_len]) is not list and not pm:
             out.append(("args", "grey", vclass(wire[spec.fixed_len])))
         if len(wire) > spec.fixed_len + 1:
             kw = wire[spec.fixed_len + 1]
